@@ -1,4 +1,5 @@
 import Sentinel.Lemmas.Reuse
+import Sentinel.Lemmas.ReuseDecisions
 /-!
 # C14 — Reloading rules does not disturb the runtime state of unchanged rules
 (property theorems only; helper lemmas live in `Sentinel/Lemmas/Reuse.lean`)
@@ -653,5 +654,269 @@ theorem hot_neutral_of_qps (r : HotRule) (hm : r.mtype ≠ 0) : r.neutral = r :=
   simp [HotRule.neutral, hm]
 
 theorem flow_reuse_keeps_stat (r : FlowRule) (st : FlowSt) (now : Nat) : (flowCalc.reuse r st now).stat = st.stat := rfl
+
+/-! ## the metamorphic claim, for the executable model the driver runs
+
+The theorems above are about one rule manager.  This section is about the driver's whole state `Sentinel.Drv.C14.St`
+(three managers, resource nodes, clock, memory reading) and its request functions `entry` (op `e`), and `doLoad` (ops
+`*.reload`, `*.reloadres`) — the very functions `stepCore` dispatches to (`stepCore_t`, `stepCore_mem`, `stepCore_e`).
+`D` is the set of resources a decision on `x` depends on: `x` and every resource the flow rules of `D` read the statistic
+of (`Closed`); the oracle computes it as `dependsOn`. -/
+section decisions
+open Sentinel.Drv.C14
+
+/-- traffic: what both runs execute -/
+inductive TOp where
+  | clock (t : Nat)
+  | mem (m : Nat)
+  | e (y : Nat) (err : Bool) (q : Req) (rt : Nat)
+  | enter (h y : Nat) (q : Req)          -- `in h y q`: the entry stays in flight under handle `h`
+  | leave (h : Nat) (err : Bool)         -- `out h err`
+
+/-- one traffic op on the driver state; a decision is tagged with its resource -/
+def TOp.run (s : St) : TOp → St × Option (Nat × String)
+  | .clock t => ({ s with now := t }, none)
+  | .mem m => ({ s with mem := m }, none)
+  | .e y err q rt => ((entry s y err q rt).1, some (y, (entry s y err q rt).2))
+  | .enter h y q => ((enterLive s h y q).1, some (y, (enterLive s h y q).2))
+  | .leave h err => ((exitLive s h err).1, none)
+
+/-- a handle that holds an entry in flight on a resource of `D` is not given to an entry on a resource outside `D`
+    (the generator never reuses a handle at all) -/
+def TOp.handleOk (D : List Nat) (s : St) : TOp → Prop
+  | .enter h y _ => y ∉ D → ∀ e, liveAt s h = some e → e.2.1 ∉ D
+  | _ => True
+
+theorem stepCore_in (s : St) (h x a : String) (hn y : Nat) (q : Req) (hh : h.toNat? = some hn) (hx : x.toNat? = some y)
+    (ha : parseReq a = some q) :
+    stepCore s ["in", h, x, a] = (((TOp.enter hn y q).run s).1, (((TOp.enter hn y q).run s).2).map (·.2)) := by
+  simp [stepCore, hh, hx, ha, TOp.run]
+
+theorem stepCore_out (s : St) (h err : String) (hn e : Nat) (hh : h.toNat? = some hn) (he : err.toNat? = some e) :
+    ((stepCore s ["out", h, err]).1) = ((TOp.leave hn (e != 0)).run s).1 := by
+  simp [stepCore, hh, he, TOp.run]
+
+theorem stepCore_t (s : St) (t : String) (n : Nat) (h : t.toNat? = some n) :
+    stepCore s ["t", t] = (((TOp.clock n).run s).1, none) := by
+  simp [stepCore, h, TOp.run]
+
+theorem stepCore_mem (s : St) (t : String) (n : Nat) (h : t.toNat? = some n) :
+    stepCore s ["mem", t] = (((TOp.mem n).run s).1, none) := by
+  simp [stepCore, h, TOp.run]
+
+theorem stepCore_e (s : St) (x err a rt : String) (y e n : Nat) (q : Req) (hx : x.toNat? = some y) (he : err.toNat? = some e)
+    (ha : parseReq a = some q) (hr : rt.toNat? = some n) :
+    stepCore s ["e", x, err, a, rt] = (((TOp.e y (e != 0) q n).run s).1, (((TOp.e y (e != 0) q n).run s).2).map (·.2)) := by
+  simp [stepCore, hx, he, ha, hr, TOp.run]
+
+/-- a history: traffic, and reloads of one module through either load path (`re` is the op's reload marker, `only` the
+    resource of a per-resource load, `arg` the rule-list token) -/
+inductive HOp where
+  | traffic (o : TOp)
+  | reload (modl : String) (re : Bool) (only : Option Nat) (arg : String)
+
+def HOp.isTraffic : HOp → Bool
+  | .traffic _ => true
+  | _ => false
+
+def HOp.run (s : St) : HOp → St × Option (Nat × String)
+  | .traffic o => o.run s
+  | .reload modl re only arg => ((doLoad false s modl re only arg).1, none)
+
+/-- the decisions of a history, in order, each tagged with its resource -/
+def decisions : St → List HOp → List (Nat × String)
+  | _, [] => []
+  | s, op :: ops => ((op.run s).2.toList) ++ decisions (op.run s).1 ops
+
+/-- the side conditions, along the run with the reloads: every reload lists, for each resource of `D` it touches, rules `isEqualsTo` the bound ones in order (this excludes the regions of
+    `reuse-steals-controller` — nothing is rebuilt, so nothing can be stolen — and of `warmup-reload-resets` — a rule
+    with a defaulted cold factor is not `isEqualsTo` its normalised bound rule); a flow reload needs no new node in `D`
+    (true of every reachable state: the unchanged rule already made sure of its node when it was first loaded). -/
+def Unchanged (D : List Nat) : St → List HOp → Prop
+  | _, [] => True
+  | s, op :: ops =>
+    (match op with
+      | .traffic o => o.handleOk D s
+      | .reload modl _ only arg =>
+        (modl = "cb" ∧ ∀ rules, parseList parseCb arg = some rules → UnchangedFor cbCalc CbRule.valid (·.res) D s.cb only rules) ∨
+        (modl = "hot" ∧ ∀ rules, parseList parseHot arg = some rules → UnchangedFor hotCalc HotRule.valid (·.res) D s.hot only rules) ∨
+        (modl = "flow" ∧ (∀ rules, parseList parseFlow arg = some rules →
+            UnchangedFor flowCalc FlowRule.valid (·.res) D s.flow only rules ∧
+            ∀ z ∈ D, (nodeAt s z).isSome ∨ z ∉ flowTargets rules only)))
+    ∧ Unchanged D (op.run s).1 ops
+
+theorem Agree.symm' {D : List Nat} {a b : St} (h : Agree D a b) : Agree D b a :=
+  ⟨h.now.symm, h.mem.symm, fun z hz => (h.on z hz).symm⟩
+
+theorem Agree.trans' {D : List Nat} {a b c : St} (h : Agree D a b) (g : Agree D b c) : Agree D a c :=
+  ⟨h.now.trans g.now, h.mem.trans g.mem, fun z hz => (h.on z hz).trans (g.on z hz)⟩
+
+/-- one traffic op keeps two agreeing states agreeing, and on a resource of `D` it answers alike -/
+theorem traffic_step (D : List Nat) (a b : St) (o : TOp) (h : Agree D a b) (hl : LiveRel D a b) (hc : Closed D a)
+    (hok : o.handleOk D a) :
+    Agree D (o.run a).1 (o.run b).1 ∧ LiveRel D (o.run a).1 (o.run b).1 ∧
+    ((o.run a).2.toList.filter (·.1 ∈ D) = (o.run b).2.toList.filter (·.1 ∈ D)) := by
+  cases o with
+  | clock t => exact ⟨⟨rfl, h.mem, h.on⟩, hl, rfl⟩
+  | mem m => exact ⟨⟨h.now, rfl, h.on⟩, hl, rfl⟩
+  | e y err q rt =>
+    obtain ⟨ha2, haoff, hanow, haat⟩ := entry_spec a y err q rt
+    obtain ⟨hb2, hboff, hbnow, hbat⟩ := entry_spec b y err q rt
+    simp only [TOp.run, Option.toList]
+    refine ⟨h.step haoff hboff (by rw [hanow, hbnow, h.now]) ?_, ?_, ?_⟩
+    · intro hy
+      rw [haat, hbat, checksOf_agree h hc y hy q, h.now]
+    · intro z e he
+      simp only [liveAt, entry_live]
+      exact hl z e he
+    · by_cases hy : y ∈ D
+      · simp only [List.filter_cons, hy, decide_true, if_true, List.filter_nil]
+        rw [ha2, hb2, checksOf_agree h hc y hy q]
+      · simp [List.filter_cons, hy]
+  | enter hd y q =>
+    obtain ⟨ha2, haoff, hanow, haat, -, hal⟩ := enterLive_spec a hd y q
+    obtain ⟨hb2, hboff, hbnow, hbat, -, hbl⟩ := enterLive_spec b hd y q
+    simp only [TOp.run, Option.toList]
+    by_cases hy : y ∈ D
+    · have hR := checksOf_agree h hc y hy q
+      refine ⟨h.step haoff hboff (by rw [hanow, hbnow, h.now]) (fun _ => by rw [haat, hbat, hR]), ?_, ?_⟩
+      · intro z e he
+        rw [hal z, hbl z, hR, h.now]
+        split_ifs
+        · rfl
+        · exact hl z e he
+      · simp only [List.filter_cons, hy, decide_true, if_true, List.filter_nil]
+        rw [ha2, hb2, hR]
+    · refine ⟨h.step haoff hboff (by rw [hanow, hbnow, h.now]) (fun hy' => absurd hy' hy), ?_, by simp [List.filter_cons, hy]⟩
+      intro z e he
+      rw [hal z, hbl z]
+      by_cases hz : z = hd
+      · subst hz
+        -- neither side holds an entry on a resource of `D` under this handle, before or after
+        have hna : ∀ e', liveAt a z = some e' → e'.2.1 ∉ D := hok hy
+        have hnb : ∀ e', liveAt b z = some e' → e'.2.1 ∉ D := by
+          intro e' he' hD
+          exact hna e' ((hl z e' hD).mpr he') hD
+        constructor
+        · intro hh
+          split_ifs at hh
+          · simp only [Option.some.injEq] at hh; subst hh; exact absurd he hy
+          · exact absurd he (hna e hh)
+        · intro hh
+          split_ifs at hh
+          · simp only [Option.some.injEq] at hh; subst hh; exact absurd he hy
+          · exact absurd he (hnb e hh)
+      · simp only [hz, and_false, if_false]
+        exact hl z e he
+  | leave hd err =>
+    simp only [TOp.run, Option.toList, List.filter_nil, and_true]
+    -- what each side holds under the handle
+    rcases hla : liveAt a hd with _ | ⟨h1, xa, qa, sa⟩ <;> rcases hlb : liveAt b hd with _ | ⟨h2, xb, qb, sb⟩
+    · rw [exitLive_none a hd err hla, exitLive_none b hd err hlb]; exact ⟨h, hl⟩
+    · have hxb : xb ∉ D := fun hD => by
+        have := (hl hd (h2, xb, qb, sb) hD).mpr hlb; rw [hla] at this; cases this
+      obtain ⟨ob, nb, -, -, lb⟩ := exitLive_some b hd err h2 xb qb sb hlb
+      rw [exitLive_none a hd err hla]
+      refine ⟨h.step2 (Off.refl' xb a) ob (by rw [nb, h.now]) hxb hxb, ?_⟩
+      intro z e he
+      rw [lb z]
+      by_cases hz : z = hd
+      · subst hz; simp only [if_true]; rw [hla]
+      · simp only [hz, if_false]; exact hl z e he
+    · have hxa : xa ∉ D := fun hD => by
+        have := (hl hd (h1, xa, qa, sa) hD).mp hla; rw [hlb] at this; cases this
+      obtain ⟨oa, na, -, -, la⟩ := exitLive_some a hd err h1 xa qa sa hla
+      rw [exitLive_none b hd err hlb]
+      refine ⟨h.step2 oa (Off.refl' xa b) (by rw [na, h.now]) hxa hxa, ?_⟩
+      intro z e he
+      rw [la z]
+      by_cases hz : z = hd
+      · subst hz; simp only [if_true]; rw [hlb]
+      · simp only [hz, if_false]; exact hl z e he
+    · obtain ⟨oa, na, -, pa, la⟩ := exitLive_some a hd err h1 xa qa sa hla
+      obtain ⟨ob, nb, -, pb, lb⟩ := exitLive_some b hd err h2 xb qb sb hlb
+      have hlive : LiveRel D (exitLive a hd err).1 (exitLive b hd err).1 := by
+        intro z e he
+        rw [la z, lb z]
+        by_cases hz : z = hd
+        · simp [hz]
+        · simp only [hz, if_false]; exact hl z e he
+      by_cases hD : xa ∈ D
+      · -- an entry on a resource of `D`: both sides hold the very same one
+        have hsame := (hl hd (h1, xa, qa, sa) hD).mp hla
+        rw [hlb] at hsame
+        simp only [Option.some.injEq, Prod.mk.injEq] at hsame
+        obtain ⟨rfl, rfl, rfl, rfl⟩ := hsame
+        refine ⟨h.step oa ob (by rw [na, nb, h.now]) (fun _ => ?_), hlive⟩
+        have hp := h.on xb hD
+        simp only [proj, Prod.mk.injEq] at hp
+        rw [pa, pb, hp.1, hp.2.1, hp.2.2.1, hp.2.2.2, h.now]
+      · have hDb : xb ∉ D := fun hD' => by
+          have hsame := (hl hd (h2, xb, qb, sb) hD').mpr hlb
+          rw [hla] at hsame
+          simp only [Option.some.injEq, Prod.mk.injEq] at hsame
+          exact hD (hsame.2.1 ▸ hD')
+        exact ⟨h.step2 oa ob (by rw [na, nb, h.now]) hD hDb, hlive⟩
+
+theorem closed_traffic (D : List Nat) (s : St) (o : TOp) (h : Closed D s) : Closed D (o.run s).1 := by
+  cases o with
+  | clock t => exact h
+  | mem m => exact h
+  | e y err q rt => exact closed_entry D s y err q rt h
+  | enter hd y q => exact closed_enterLive D s hd y q h
+  | leave hd err => exact closed_exitLive D s hd err h
+
+theorem decisions_sim (D : List Nat) (ops : List HOp) (a b : St) (h : Agree D a b) (hl : LiveRel D a b) (hc : Closed D a)
+    (hu : Unchanged D a ops) :
+    (decisions a ops).filter (·.1 ∈ D) = (decisions b (ops.filter HOp.isTraffic)).filter (·.1 ∈ D) := by
+  induction ops generalizing a b with
+  | nil => rfl
+  | cons op ops ih =>
+    obtain ⟨hop, hrest⟩ := hu
+    cases op with
+    | traffic o =>
+      obtain ⟨hag, hlive, hdec⟩ := traffic_step D a b o h hl hc hop
+      simp only [List.filter_cons, HOp.isTraffic, if_true, decisions, HOp.run, List.filter_append]
+      rw [hdec]
+      congr 1
+      exact ih _ _ hag hlive (closed_traffic D a o hc) hrest
+    | reload modl re only arg =>
+      simp only [List.filter_cons, HOp.isTraffic, decisions, HOp.run, Option.toList, List.nil_append]
+      have hself : Agree D (doLoad false a modl re only arg).1 a := by
+        rcases hop with ⟨rfl, hh⟩ | ⟨rfl, hh⟩ | ⟨rfl, hh⟩
+        · exact doLoad_cb_agree D a re only arg hh
+        · exact doLoad_hot_agree D a re only arg hh
+        · exact doLoad_flow_agree D a re only arg (fun r hr => (hh r hr).1) (fun r hr => (hh r hr).2)
+      have hlself : (doLoad false a modl re only arg).1.live = a.live := doLoad_live a modl re only arg
+      have hl' : LiveRel D (doLoad false a modl re only arg).1 b := by
+        intro z e he; simp only [liveAt, hlself]; exact hl z e he
+      exact ih _ _ (Agree.trans' hself h) hl' (closed_of_agree hself hc) hrest
+
+/-- **C14 at decision level, for the model the driver executes.**  From any driver state `s` (whatever history `h`
+    produced it): for every continuation of traffic (`t`, `mem`, `e`, `in` / `out` on any resources; handles as in `handleOk`) with reloads of any module inserted
+    anywhere, through either load path, saying anything about resources outside `D`: if the flow controllers of `D` read
+    only nodes of `D` at the start (`Closed`; traffic and unchanged reloads keep it so) and every reload leaves the rules
+    of the resources in `D` unchanged (`Unchanged`), every decision on a resource of `D` — in particular on `x` — is the
+    one the same traffic gets without the reloads. -/
+theorem decisions_unaffected_by_reload_partial (D : List Nat) (s : St) (ops : List HOp) (hc : Closed D s)
+    (hu : Unchanged D s ops) :
+    (decisions s ops).filter (·.1 ∈ D) = (decisions s (ops.filter HOp.isTraffic)).filter (·.1 ∈ D) :=
+  decisions_sim D ops s s ⟨rfl, rfl, fun _ _ => rfl⟩ (fun _ _ _ => Iff.rfl) hc hu
+
+/-- the form asked for: one reload `r` between a history's state and a tail `t` of traffic -/
+theorem decisions_same_with_and_without_one_reload (D : List Nat) (s : St) (modl : String) (re : Bool) (only : Option Nat)
+    (arg : String) (t : List TOp) (hc : Closed D s)
+    (hu : Unchanged D s (HOp.reload modl re only arg :: t.map HOp.traffic)) :
+    (decisions s (HOp.reload modl re only arg :: t.map HOp.traffic)).filter (·.1 ∈ D)
+      = (decisions s (t.map HOp.traffic)).filter (·.1 ∈ D) := by
+  have := decisions_unaffected_by_reload_partial D s _ hc hu
+  rw [this]
+  congr 2
+  simp only [List.filter_cons, HOp.isTraffic, Bool.false_eq_true, if_false]
+  induction t with
+  | nil => rfl
+  | cons o t ih => simp [List.filter_cons, HOp.isTraffic, ih]
+
+end decisions
 
 end Sentinel.C14
